@@ -2530,3 +2530,84 @@ pub fn alloc_seq_family(depth: usize) -> Vec<Program> {
     go([0; 4], &mut vec![], depth, &mut out);
     out
 }
+
+/// WAIT-loop: the canonical usage of the waiting primitives - `while !flag { wait }` - with a
+/// relaxed flag, so that what the waiter learns comes through the notification itself.
+/// Notifier blocks per flag: store-then-notify (correct), notify-then-store (lost wake-up
+/// possible), for the condvar also outside the mutex. One waiter with 1-2 flags and 1-2
+/// notifier threads (so two notifications can be pending at once), the waiter being main or a
+/// child; for the condvar also two waiters with notify_one / notify_all.
+pub fn wait_loop_family(full: bool) -> Vec<Program> {
+    let mut out = vec![];
+    let mut seen = HashSet::new();
+    let objs = |nflags: usize| Objs { atomics: vec![0; nflags], notifies: 1, mutexes: 1, condvars: 1, ..Default::default() };
+    // notifier block for flag `i`, primitive `prim`, variant `v`, waiter thread `w`
+    let nblock = |prim: usize, v: usize, i: usize, w: usize| -> Option<Vec<Op>> {
+        let s = st(i, 1, Rlx);
+        Some(match (prim, v) {
+            (0, 0) => vec![s, K::NNotify { n: 0 }.into()],
+            (0, 1) => vec![K::NNotify { n: 0 }.into(), s],
+            (1, 0) => vec![s, K::Unpark { t: w }.into()],
+            (1, 1) => vec![K::Unpark { t: w }.into(), s],
+            (2, 0) => vec![K::Lock { m: 0 }.into(), s, K::NotifyOne { cv: 0 }.into(), K::Unlock { m: 0 }.into()],
+            (2, 1) => vec![K::Lock { m: 0 }.into(), s, K::Unlock { m: 0 }.into(), K::NotifyOne { cv: 0 }.into()],
+            (2, 2) => vec![s, K::NotifyOne { cv: 0 }.into()],
+            (2, 3) => vec![K::Lock { m: 0 }.into(), s, K::NotifyAll { cv: 0 }.into(), K::Unlock { m: 0 }.into()],
+            _ => return None,
+        })
+    };
+    let wloop = |prim: usize, i: usize| -> Vec<Op> {
+        match prim {
+            0 => vec![K::NWaitUntil { n: 0, a: i, mo: Rlx, want: 1 }.into()],
+            1 => vec![K::ParkUntil { a: i, mo: Rlx, want: 1 }.into()],
+            _ => vec![K::Lock { m: 0 }.into(), K::CvWaitUntil { cv: 0, m: 0, a: i, mo: Rlx, want: 1 }.into(), K::Unlock { m: 0 }.into()],
+        }
+    };
+    let mut push = |p: Program, out: &mut Vec<Program>| {
+        if seen.insert(p.text()) {
+            out.push(p);
+        }
+    };
+    for prim in 0..3 {
+        let nv = if prim == 2 { 4 } else { 2 };
+        for nflags in 1..=2usize {
+            let waiter: Vec<Op> = (0..nflags).flat_map(|i| wloop(prim, i)).collect();
+            // variants per flag
+            let vsets: Vec<Vec<usize>> = if nflags == 1 { (0..nv).map(|v| vec![v]).collect() } else { (0..nv).flat_map(|a| (0..nv).map(move |b| vec![a, b])).collect() };
+            for vs in &vsets {
+                if !full && nflags == 2 && vs[0] != 0 && vs[1] != 0 {
+                    continue;
+                }
+                for order in 0..nflags {
+                    // flags notified in order / reversed
+                    let idx: Vec<usize> = if order == 0 { (0..nflags).collect() } else { (0..nflags).rev().collect() };
+                    // S1: main waits, one child notifies everything
+                    let one: Vec<Op> = idx.iter().flat_map(|&i| nblock(prim, vs[i], i, 0).unwrap()).collect();
+                    push(with_main(&format!("WAIT-loop-{}-S1", prim), objs(nflags), vec![], vec![one.clone()], waiter.clone(), vec![]), &mut out);
+                    // S3: a child waits, main notifies (after the spawn)
+                    let one_c: Vec<Op> = idx.iter().flat_map(|&i| nblock(prim, vs[i], i, 1).unwrap()).collect();
+                    push(with_main(&format!("WAIT-loop-{}-S3", prim), objs(nflags), vec![], vec![waiter.clone()], one_c, vec![]), &mut out);
+                    if nflags == 2 {
+                        // S2: main waits, two children notify one flag each
+                        let ch: Vec<Vec<Op>> = idx.iter().map(|&i| nblock(prim, vs[i], i, 0).unwrap()).collect();
+                        push(with_main(&format!("WAIT-loop-{}-S2", prim), objs(nflags), vec![], ch, waiter.clone(), vec![]), &mut out);
+                    }
+                }
+            }
+        }
+    }
+    // condvar, two waiters with a flag each; one notifier
+    for v0 in 0..4 {
+        for v1 in 0..4 {
+            if !full && v0 != 0 && v0 != 3 && v1 != 0 && v1 != 3 {
+                continue;
+            }
+            let n: Vec<Op> = nblock(2, v0, 0, 0).unwrap().into_iter().chain(nblock(2, v1, 1, 0).unwrap()).collect();
+            push(with_main("WAIT-loop-cv-2w", objs(2), vec![], vec![wloop(2, 1), n.clone()], wloop(2, 0), vec![]), &mut out);
+            if full {
+                push(with_main("WAIT-loop-cv-2w-3ch", objs(2), vec![], vec![wloop(2, 0), wloop(2, 1), n], vec![], vec![]), &mut out);
+            }
+        }
+    }
+    out
+}
